@@ -201,6 +201,11 @@ class Apps:
             # the ways clients ask for JSON first (a pure function of the case: replays send the same header)
             import zlib
             headers['Accept'] = JSON_ACCEPTS[zlib.crc32(repr((kind, pos, payload)).encode('utf8', 'replace')) % len(JSON_ACCEPTS)]
+        else:
+            import zlib
+            acc = OTHER_ACCEPTS[zlib.crc32(repr((pos, payload, kind)).encode('utf8', 'replace')) % len(OTHER_ACCEPTS)]
+            if acc is not None:
+                headers['Accept'] = acc
         method = 'POST' if kind == '400' else 'GET'
         kw = {}
         if kind == '400':
@@ -211,6 +216,7 @@ class Apps:
         return wsgi.call({'critical': self.app2, 'criticaldm': self.app3, '500datasetup': self.app4, '404static': self.app5}.get(kind, self.app), env)
 
 
+OTHER_ACCEPTS = [None, None, 'text/plain', 'text/html,application/xhtml+xml,*/*;q=0.8', '*/*', 'text/plain, */*', 'text/*']      # clients that do not ask for JSON
 JSON_ACCEPTS = ['application/json', 'application/json, text/plain, */*', 'application/json;q=0.9, */*;q=0.8', 'application/json; charset=utf-8',
                 'application/json, text/javascript, */*; q=0.01', 'application/json; q=0.5', 'application/json;q=1.0, text/html;q=0.9']
 
